@@ -38,7 +38,8 @@ const (
 // tuple = document state + values of constant-assigned local bool flags.
 type dtuple struct {
 	st    dstate
-	flags string // "name=1,other=0" sorted
+	flags string // "name=1,other=0" sorted; ints are abstracted to 0 / +
+	ret   string // exits only: abstract values of returned flags, "0=+,1=0" (result index = value)
 }
 
 type dset map[dtuple]bool
@@ -73,6 +74,16 @@ func (s dset) states() string {
 	return strings.Join(out, "")
 }
 
+// signature distinguishes exit sets including the abstract return values (fixpoint detection).
+func (s dset) signature() string {
+	var out []string
+	for k := range s {
+		out = append(out, string(k.st)+"/"+k.ret)
+	}
+	sort.Strings(out)
+	return strings.Join(out, ";")
+}
+
 func (s dset) has(st dstate) bool {
 	for k := range s {
 		if k.st == st {
@@ -88,6 +99,16 @@ func setFlag(flags, name string, val bool) string {
 		m[name] = "1"
 	} else {
 		m[name] = "0"
+	}
+	return renderFlags(m)
+}
+
+func setFlagVal(flags, name, val string) string {
+	m := parseFlags(flags)
+	if val == "" {
+		delete(m, name)
+	} else {
+		m[name] = val
 	}
 	return renderFlags(m)
 }
@@ -198,7 +219,7 @@ func syncRules(c *Ctx) {
 		for _, fi := range reach {
 			old := e.sum[fi]
 			ns := e.analyze(fi)
-			if ns.exits.states() != old.exits.states() || ns.needsSync != old.needsSync || ns.mutates != old.mutates {
+			if ns.exits.signature() != old.exits.signature() || ns.needsSync != old.needsSync || ns.mutates != old.mutates {
 				changed = true
 			}
 			e.sum[fi] = ns
@@ -334,28 +355,48 @@ type syncFn struct {
 	sum   *syncSummary
 	flags map[types.Object]bool
 	jumps []dset // per enclosing loop: states at break/continue statements
+	bind  map[int]types.Object
 }
 
 func (e *syncEngine) analyze(fi *core.FuncInfo) *syncSummary {
 	f := &syncFn{e: e, fi: fi, info: fi.Pkg.TypesInfo, sum: &syncSummary{exits: dset{}}, flags: map[types.Object]bool{}}
 	// flags: local bools all of whose assignments are constants
 	ld := e.c.P.Locals(fi)
+	isInt := func(t types.Type) bool {
+		b, ok := t.Underlying().(*types.Basic)
+		return ok && b.Info()&types.IsInteger != 0
+	}
 	for o, defs := range ld.Defs {
-		if !core.IsBool(o.Type()) || ld.Params[o] {
+		if !(core.IsBool(o.Type()) || isInt(o.Type())) {
 			continue
+		}
+		if ld.Params[o] {
+			// named results are fine, real parameters are not tracked
+			if _, isParam := e.eff.paramIndex(fi, o); isParam {
+				continue
+			}
 		}
 		all := len(defs) > 0
 		for _, d := range defs {
-			if d.Kind == core.DefZero {
-				continue
-			}
-			if d.Kind != core.DefAssign {
+			switch d.Kind {
+			case core.DefZero:
+			case core.DefOpaque:
+				if _, isInc := d.Node.(*ast.IncDecStmt); !isInc {
+					all = false
+				}
+			case core.DefAssign, core.DefMulti:
+				if tv, ok := f.info.Types[d.Expr]; ok && tv.Value != nil {
+					continue
+				}
+				// bound from the summary of a module call
+				if call, ok := core.Unparen(d.Expr).(*ast.CallExpr); ok {
+					if callee := e.c.P.StaticCallee(fi, call); callee != nil && e.c.P.Funcs[callee] != nil {
+						continue
+					}
+				}
 				all = false
-				break
-			}
-			if tv, ok := f.info.Types[d.Expr]; !ok || tv.Value == nil {
+			default:
 				all = false
-				break
 			}
 		}
 		if all {
@@ -366,7 +407,7 @@ func (e *syncEngine) analyze(fi *core.FuncInfo) *syncSummary {
 	out, term := f.stmts(fi.Decl.Body.List, start)
 	if !term {
 		for k := range out {
-			f.sum.exits[k] = true
+			f.sum.exits[dtuple{st: k.st}] = true
 		}
 	}
 	return f.sum
@@ -413,7 +454,37 @@ func (f *syncFn) stmt(st ast.Stmt, s dset) (dset, bool) {
 		}
 		if !f.isErrorExit(x) {
 			for k := range s {
-				f.sum.exits[k] = true
+				fl := parseFlags(k.flags)
+				ret := map[string]string{}
+				for i, r := range x.Results {
+					if o := core.ObjOf(f.info, r); o != nil && f.flags[o] {
+						if v, ok := fl[o.Name()]; ok {
+							ret[fmt.Sprint(i)] = v
+						}
+					} else if tv, ok := f.info.Types[r]; ok && tv.Value != nil {
+						switch tv.Value.String() {
+						case "true":
+							ret[fmt.Sprint(i)] = "1"
+						case "false", "0":
+							ret[fmt.Sprint(i)] = "0"
+						}
+					}
+				}
+				// named results returned by a bare return
+				if len(x.Results) == 0 && f.fi.Decl.Type.Results != nil {
+					i := 0
+					for _, fld := range f.fi.Decl.Type.Results.List {
+						for _, nm := range fld.Names {
+							if o := f.info.Defs[nm]; o != nil && f.flags[o] {
+								if v, ok := fl[o.Name()]; ok {
+									ret[fmt.Sprint(i)] = v
+								}
+							}
+							i++
+						}
+					}
+				}
+				f.sum.exits[dtuple{st: k.st, ret: renderFlags(ret)}] = true
 			}
 		}
 		return s, true
@@ -495,6 +566,13 @@ func (f *syncFn) stmt(st ast.Stmt, s dset) (dset, bool) {
 	case *ast.GoStmt:
 		return f.expr(x.Call, s), false
 	case *ast.IncDecStmt:
+		if o := core.ObjOf(f.info, x.X); o != nil && f.flags[o] && x.Tok == token.INC {
+			out := dset{}
+			for k := range s {
+				out[dtuple{st: k.st, flags: setFlagVal(k.flags, o.Name(), "+")}] = true
+			}
+			return out, false
+		}
 		return s, false
 	case *ast.DeclStmt:
 		if gd, ok := x.Decl.(*ast.GenDecl); ok {
@@ -513,6 +591,25 @@ func (f *syncFn) stmt(st ast.Stmt, s dset) (dset, bool) {
 		}
 		return s, false
 	case *ast.AssignStmt:
+		// x, err := f(…): bind tracked locals to the callee's abstract results
+		if len(x.Rhs) == 1 {
+			if call, ok := core.Unparen(x.Rhs[0]).(*ast.CallExpr); ok {
+				if callee := f.e.c.P.StaticCallee(f.fi, call); callee != nil && f.e.sum[f.e.c.P.Funcs[callee]] != nil {
+					bind := map[int]types.Object{}
+					for i, l := range x.Lhs {
+						if o := core.ObjOf(f.info, l); o != nil && f.flags[o] {
+							bind[i] = o
+						}
+					}
+					if len(bind) > 0 {
+						for _, a := range call.Args {
+							s = f.expr(a, s)
+						}
+						return f.callBind(call, s, bind), false
+					}
+				}
+			}
+		}
 		for _, r := range x.Rhs {
 			s = f.expr(r, s)
 		}
@@ -521,7 +618,18 @@ func (f *syncFn) stmt(st ast.Stmt, s dset) (dset, bool) {
 			if id, ok := l.(*ast.Ident); ok {
 				if o := core.ObjOf(f.info, id); o != nil && f.flags[o] && i < len(x.Rhs) {
 					if tv, ok := f.info.Types[x.Rhs[i]]; ok && tv.Value != nil {
-						s = f.setFlag(s, o, tv.Value.String() == "true")
+						switch tv.Value.String() {
+						case "true":
+							s = f.setFlag(s, o, true)
+						case "false", "0":
+							s = f.setFlag(s, o, false)
+						default:
+							out := dset{}
+							for k := range s {
+								out[dtuple{st: k.st, flags: setFlagVal(k.flags, o.Name(), "+")}] = true
+							}
+							s = out
+						}
 					}
 				}
 				continue
@@ -551,6 +659,37 @@ func (f *syncFn) filter(s dset, cond ast.Expr) (dset, dset) {
 	if u, ok := e.(*ast.UnaryExpr); ok && u.Op == token.NOT {
 		neg = true
 		e = core.Unparen(u.X)
+	}
+	// integer flag compared with 0 / 1:  n == 0, n < 1, n <= 0  (zero)   n != 0, n > 0, n >= 1  (positive)
+	if be, ok := e.(*ast.BinaryExpr); ok {
+		if o := core.ObjOf(f.info, be.X); o != nil && f.flags[o] {
+			if tv, isC := f.info.Types[be.Y]; isC && tv.Value != nil {
+				c := tv.Value.String()
+				zero, known := false, false
+				switch {
+				case c == "0" && (be.Op == token.EQL || be.Op == token.LEQ), c == "1" && be.Op == token.LSS:
+					zero, known = true, true
+				case c == "0" && (be.Op == token.NEQ || be.Op == token.GTR), c == "1" && be.Op == token.GEQ:
+					zero, known = false, true
+				}
+				if known {
+					t, el := dset{}, dset{}
+					for k := range s {
+						v, has := parseFlags(k.flags)[o.Name()]
+						switch {
+						case !has:
+							t[k], el[k] = true, true
+						case (v == "0") == (zero != neg):
+							t[k] = true
+						default:
+							el[k] = true
+						}
+					}
+					return t, el
+				}
+			}
+		}
+		return s, s
 	}
 	o := core.ObjOf(f.info, e)
 	if o == nil || !f.flags[o] {
@@ -704,6 +843,14 @@ func (f *syncFn) indexReads(e ast.Expr, s dset) dset {
 	return s
 }
 
+// callBind applies a module call whose results are bound to tracked locals.
+func (f *syncFn) callBind(call *ast.CallExpr, s dset, bind map[int]types.Object) dset {
+	f.bind = bind
+	out := f.call(call, s)
+	f.bind = nil
+	return out
+}
+
 func (f *syncFn) call(call *ast.CallExpr, s dset) dset {
 	c := f.e.c
 	if isBuiltin(f.info, call, "delete") || isBuiltin(f.info, call, "copy") || isBuiltin(f.info, call, "clear") {
@@ -814,7 +961,14 @@ func (f *syncFn) call(call *ast.CallExpr, s dset) dset {
 				if st == stE {
 					st = k.st
 				}
-				out[dtuple{st: st, flags: k.flags}] = true
+				fl := k.flags
+				if f.bind != nil {
+					rv := parseFlags(ek.ret)
+					for i, o := range f.bind {
+						fl = setFlagVal(fl, o.Name(), rv[fmt.Sprint(i)])
+					}
+				}
+				out[dtuple{st: st, flags: fl}] = true
 			}
 			if len(cs.exits) == 0 {
 				out[k] = true
